@@ -10,11 +10,14 @@
  *   - chomp / get_word / get_pword / temp_file: model functions with the text of their declared contracts.
  *   (Each call replaced by DFCC itself costs nine arrays indexed by object number; with the dozen call sites of this
  *   function the SAT instance had 20M variables.  The enforced function itself is checked by DFCC in full.)
- * One unit covers every behaviour of the file mode.  The two behaviours that had their own (failing) units while
+ * Two units, split on the first character of the chomped line (their union is every line of the file mode):
+ *   parse_line            the text does not start with '%'  (comment, begin, end, text, skipped)
+ *   parse_line_directive  the text starts with '%'           (%include, %preproc, other directives, a lone '%')
+ * Same SAT instance size, but each half is decided in roughly half the time and the two run in parallel.  The two behaviours that had their own (failing) units while
  * the defects were open — a second %preproc in a preprocessed file (C09-preproc-shadow-fp, fixed 4b67cd0) and a '%'
- * without a directive word (C11-bare-percent, fixed 9caaf35) — are ordinary paths of this unit now: the get_pword
+ * without a directive word (C11-bare-percent, fixed 9caaf35) — are ordinary paths of parse_line_directive now: the get_pword
  * model may return NULL whenever the text does not start with a plain character, and no clause is excused.
- * Run time: 4-8 minutes (4M SAT variables). */
+ * Run time: 3-7 minutes each (4M SAT variables). */
 
 /*@unit
 name: ctx_lookup
@@ -29,7 +32,19 @@ native_includes: conf.c
 */
 /*@unit
 name: parse_line
-define: U_PARSE_LINE, VERIF_CONF_ANNOT, VERIF_OWN_STRCMP, VERIF_OWN_STRCHR, VERIF_CONF_REBIND, VERIF_LOOKUP_MODEL, VERIF_CONF_PUSH_MODELS, VERIF_CONF_CALL_MODELS
+define: U_PARSE_LINE, U_PL_NOT_DIRECTIVE, VERIF_CONF_ANNOT, VERIF_OWN_STRCMP, VERIF_OWN_STRCHR, VERIF_CONF_REBIND, VERIF_LOOKUP_MODEL, VERIF_CONF_PUSH_MODELS, VERIF_CONF_CALL_MODELS
+src: conf.c
+enforce: spifconf_parse_line
+prepass: --replace-calls spifconf_shell_expand:v_m_shell_expand --replace-calls spifconf_open_file:v_m_open_file
+backend: sat
+timeout: 1800
+funcs: v_ctx_lookup, spifconf_register_context_state, spifconf_register_fstate
+native: conf_replay
+native_includes: conf.c
+*/
+/*@unit
+name: parse_line_directive
+define: U_PARSE_LINE, U_PL_DIRECTIVE, VERIF_CONF_ANNOT, VERIF_OWN_STRCMP, VERIF_OWN_STRCHR, VERIF_CONF_REBIND, VERIF_LOOKUP_MODEL, VERIF_CONF_PUSH_MODELS, VERIF_CONF_CALL_MODELS
 src: conf.c
 enforce: spifconf_parse_line
 prepass: --replace-calls spifconf_shell_expand:v_m_shell_expand --replace-calls spifconf_open_file:v_m_open_file
